@@ -121,9 +121,12 @@ pub fn replay(args: &[String]) {
                     }
                     if rep.evaluations % 40 < 2 {
                         writeln!(out, "{}", out_event(fmt, "", d, preset, "direct")).unwrap();
-                        let pfx = ["v", "release-", "V_"][rng.gen_range(0..3)];
-                        if let Outcome::Ok(pd) = run_cli(&with_format(&argv_z, fmt, Some(pfx)), None) {
-                            writeln!(out, "{}", out_event(fmt, pfx, &pd, preset, "prefixed")).unwrap();
+                        // ordinary prefixes, digit / dot prefixes, and the adversarial one: the first characters of the version itself
+                        let own: String = d.chars().take(rng.gen_range(1..4)).collect();
+                        let pool = ["v", "release-", "V_", "1", "1.", "0", "2!", "10", own.as_str()];
+                        let pfx = pool[rng.gen_range(0..pool.len())].to_string();
+                        if let Outcome::Ok(pd) = run_cli(&with_format(&argv_z, fmt, Some(&pfx)), None) {
+                            writeln!(out, "{}", out_event(fmt, &pfx, &pd, preset, "prefixed")).unwrap();
                         }
                     }
                     if rep.evaluations % 4001 < 2 {
